@@ -615,7 +615,7 @@ Proof.
       set (s0 := mkSt (live s1) (glb s1) (obs s1) 0 (trace s1)).
       assert (s1 = shift n s0) as Es by (destruct s1; simpl in *; subst; reflexivity).
       replace (Some k) with (Some ((k - n) + n)) by (f_equal; lia).
-      rewrite Es, exec_shift. simpl. apply conn_impl_leaks; try reflexivity; try exact Hb.
+      rewrite Es, exec_shift. cbn [snd]. unfold shift at 1. cbn [live]. apply conn_impl_leaks; try reflexivity; try exact Hb.
       * exact L.
       * simpl. rewrite <- Hv. apply valid_cfg_ext; apply K; simpl; auto.
     + destruct (O eq_refl) as [j [Hj Hr]]. inversion Hj. lia.
@@ -639,47 +639,45 @@ Qed.
 Lemma si_cleanup : forall W f, knows W -> si W (cleanup_prog f) = true.
 Proof. intros W f [A _]. apply mem_In in A. destruct f; simpl; rewrite ?A; reflexivity. Qed.
 
-Lemma si_seqs_map : forall {X} (f : X -> prog) l W, (forall W', knows W' -> forall x, si W' (f x) = true) ->
-  knows W -> si W (seqs (map f l)) = true.
+Lemma si_seqs_all : forall ps W, knows W ->
+  (forall p, In p ps -> forall W', knows W' -> si W' p = true) -> si W (seqs ps) = true.
 Proof.
-  intros X f l. induction l; intros W H K; simpl; [reflexivity|].
-  rewrite (H W K a). simpl. apply IHl; [exact H | apply knows_app; exact K].
+  induction ps; intros W K H; simpl; [reflexivity|].
+  rewrite (H a (or_introl eq_refl) W K). simpl. apply IHps; [apply knows_app; exact K|].
+  intros p Hp. apply H. right. exact Hp.
 Qed.
+
+Lemma si_step_dsout : forall l W, knows W -> si W (Step l [GDsOut]) = true.
+Proof. intros l W [A _]. simpl. rewrite (proj2 (mem_In _ _) A). reflexivity. Qed.
 
 Lemma si_stmt : forall W s, knows W -> si W (stmt_prog s) = true.
 Proof.
-  intros W s K. unfold stmt_prog. rewrite !si_seqs_cons.
-  rewrite (si_seqs_map load_prog (loads s) W (fun W' K' x => si_load W' x K') K). simpl andb.
-  assert (knows (dw (seqs (map load_prog (loads s))) ++ W)) as K1 by (apply knows_app; exact K).
-  destruct K1 as [A1 [B1 C1]]. simpl si at 1. rewrite (proj2 (mem_In _ _) A1). simpl andb.
-  rewrite si_seqs_cons.
-  rewrite (si_seqs_map cleanup_prog (cleanup s) _ (fun W' K' x => si_cleanup W' x K')); [reflexivity|].
-  apply knows_app. repeat split; assumption.
-Qed.
-
-Lemma si_repeat_fetch : forall n W, knows W -> si W (seqs (repeat (Step LFetch [GDsOut]) n)) = true.
-Proof.
-  induction n; intros W K; simpl; [reflexivity|]. destruct K as [A [B C]].
-  rewrite (proj2 (mem_In _ _) A). simpl. apply IHn. repeat split; assumption.
+  intros W s K. unfold stmt_prog. apply si_seqs_all; [exact K|].
+  intros p [<-|[<-|[<-|[]]]] W' K'.
+  - apply si_seqs_all; [exact K'|]. intros q Hq W2 K2. apply in_map_iff in Hq. destruct Hq as [x [<- _]]. apply si_load. exact K2.
+  - apply si_step_dsout. exact K'.
+  - apply si_seqs_all; [exact K'|]. intros q Hq W2 K2. apply in_map_iff in Hq. destruct Hq as [x [<- _]]. apply si_cleanup. exact K2.
 Qed.
 
 Lemma si_exec_queries : forall W ss nfinal save, knows W -> si W (exec_queries ss nfinal save) = true.
 Proof.
-  intros W ss nfinal save K. unfold exec_queries. rewrite !si_seqs_cons.
-  destruct K as [A [B C]]. simpl si at 1. rewrite (proj2 (mem_In _ _) A). simpl andb.
-  assert (knows (dw (Step LInitMacros [GDsOut]) ++ W)) as K1 by (simpl; repeat split; assumption).
-  rewrite (si_seqs_map stmt_prog ss _ (fun W' K' x => si_stmt W' x K') K1). simpl andb.
-  rewrite si_repeat_fetch by (apply knows_app; exact K1). simpl andb.
-  destruct save; reflexivity.
+  intros W ss nfinal save K. unfold exec_queries. apply si_seqs_all; [exact K|].
+  intros p [<-|[<-|[<-|[<-|[]]]]] W' K'.
+  - apply si_step_dsout. exact K'.
+  - apply si_seqs_all; [exact K'|]. intros q Hq W2 K2. apply in_map_iff in Hq. destruct Hq as [x [<- _]]. apply si_stmt. exact K2.
+  - apply si_seqs_all; [exact K'|]. intros q Hq W2 K2. apply repeat_spec in Hq. subst. apply si_step_dsout. exact K2.
+  - destruct save; reflexivity.
 Qed.
 
 Lemma si_sem_stmts : forall n i W, In GDsOut W -> In GRegistry W -> si W (sem_stmts i n) = true.
 Proof.
-  induction n; intros i W A B; simpl; [reflexivity|].
-  rewrite Nat.eqb_refl. simpl.
-  assert (mem GRegistry (GDsOut :: W) = true) as M by (apply mem_In; right; exact B).
-  unfold mem in M. simpl in M. rewrite M. simpl.
-  apply IHn; simpl; auto.
+  induction n; intros i W A B; [reflexivity|].
+  change (si W (sem_stmts i (S n))) with
+    (true && (subset [GDsOut; GRegistry] ([GDsOut] ++ W) &&
+              (true && si (dw (Write GDsOut 0) ++ dw (Step LSem [GDsOut; GRegistry]) ++ [GDsOut] ++ W) (sem_stmts (S i) n)))).
+  assert (subset [GDsOut; GRegistry] ([GDsOut] ++ W) = true) as S1.
+  { apply subset_In. intros x [<-|[<-|[]]]; simpl; auto. }
+  rewrite S1. simpl andb. apply IHn; simpl; auto.
 Qed.
 
 (* the spec skeleton of run(), for every number of statements / schedule / environment setting, reads only what it
@@ -687,32 +685,10 @@ Qed.
 Theorem run_spec_self_init : forall n fb envW envS ss nfinal save,
   si (map fst restored) (run_spec n fb envW envS (exec_queries ss nfinal save)) = true.
 Proof.
-  intros. unfold run_spec.
-  change (si [GDsOut] (semantic_spec n) &&
-          si (dw (semantic_spec n) ++ [GDsOut]) (conn_spec fb (decimal_spec envW envS) (exec_queries ss nfinal save)) = true).
-  apply andb_true_iff. split.
-  - simpl. apply si_sem_stmts; simpl; auto.
-  - unfold conn_spec. set (W := dw (semantic_spec n) ++ [GDsOut]).
-    assert (In GDsOut W) as A by (apply in_or_app; right; left; reflexivity).
-    change (si W (Step LMkdir []) && si (dw (Step LMkdir []) ++ W)
-              (TryFinally (seqs [Acquire RDir; Step LConnect []; acquire_db fb; Step LSettings []; Step LUdf []; Step LDecimal [];
-                                 decimal_spec envW envS; Step LSetTemp []; exec_queries ss nfinal save]) conn_finally) = true).
-    simpl si at 1. simpl andb. simpl dw at 1. simpl app at 1.
-    change (si W (seqs [Acquire RDir; Step LConnect []; acquire_db fb; Step LSettings []; Step LUdf []; Step LDecimal [];
-                        decimal_spec envW envS; Step LSetTemp []; exec_queries ss nfinal save]) && si W conn_finally = true).
-    apply andb_true_iff. split; [|reflexivity].
-    rewrite !si_seqs_cons. simpl si at 1. simpl si at 1. simpl andb.
-    assert (si (dw (Step LConnect []) ++ dw (Acquire RDir) ++ W) (acquire_db fb) = true) as E1 by (destruct fb; reflexivity).
-    rewrite E1. simpl andb. simpl si at 1. simpl si at 1. simpl si at 1. simpl andb.
-    set (W1 := dw (Step LDecimal []) ++ dw (Step LUdf []) ++ dw (Step LSettings []) ++ dw (acquire_db fb) ++
-               dw (Step LConnect []) ++ dw (Acquire RDir) ++ W).
-    assert (In GDsOut W1) as A1 by (unfold W1; repeat (apply in_or_app; right); exact A).
-    assert (si W1 (decimal_spec envW envS) = true) as E2.
-    { unfold decimal_spec. simpl. rewrite (proj2 (mem_In GDsOut (GWidth :: W1)) (or_intror A1)).
-      rewrite (proj2 (mem_In GDsOut (GScale :: GWidth :: W1)) (or_intror (or_intror A1))). reflexivity. }
-    rewrite E2. simpl andb. simpl si at 1. simpl andb.
-    apply andb_true_iff. split; [|reflexivity].
-    apply si_exec_queries. apply knows_app. unfold decimal_spec. simpl. repeat split; auto.
+  intros. unfold run_spec, conn_spec, semantic_spec, semantic_impl, decimal_spec.
+  pose proof (fun W K => si_exec_queries W ss nfinal save K) as HB.
+  generalize dependent (exec_queries ss nfinal save). intros body HB.
+  destruct fb; simpl; rewrite si_sem_stmts by (simpl; auto); rewrite HB by (repeat split; simpl; auto); reflexivity.
 Qed.
 
 Lemma write_free_exec_queries : forall L ss nfinal save, write_free L (exec_queries ss nfinal save) = true.
@@ -741,8 +717,59 @@ Proof.
   intros. unfold run_spec. apply (seq_preserves (inv restored)); [| |assumption].
   - intros s0 _. apply try_reset_preserves. simpl. constructor; [intros []|constructor].
   - intros s0 I0. apply write_free_preserves; [|exact I0].
-    unfold conn_spec. simpl. rewrite write_free_exec_queries. destruct fb; reflexivity.
+    unfold conn_spec, decimal_spec. pose proof (write_free_exec_queries (map fst restored) ss nfinal save) as HB.
+    generalize dependent (exec_queries ss nfinal save). intros body HB.
+    destruct fb; simpl in *; rewrite HB; reflexivity.
 Qed.
 
 Lemma validate_restores : forall k s, inv restored s -> inv restored (snd (exec k validate_prog s)).
 Proof. intros k s I. apply write_free_preserves; [reflexivity | exact I]. Qed.
+
+(* ---- statements used verbatim by Props/C16.v ------------------------------------------------------------------ *)
+Corollary run_impl_leaks_positions : forall n fb envW envS body k G,
+  valid_cfg_impl envW envS G = true -> wb [RConn; RDbFile; RDir] body = true ->
+  (live (snd (exec (Some k) (run_impl n fb envW envS body) (init G))) <> [] <-> n + 1 <= k <= n + 5).
+Proof.
+  intros n fb envW envS body k G Hv Hb. rewrite (run_impl_leaks n fb envW envS body k G Hv Hb).
+  destruct (k <? n) eqn:E.
+  - apply Nat.ltb_lt in E. split; [intros H; exfalso; apply H; reflexivity | lia].
+  - apply Nat.ltb_ge in E. remember (k - n) as j eqn:Ej.
+    destruct j as [|[|[|[|[|[|j]]]]]]; simpl; split; intros H; try lia; try (exfalso; apply H; reflexivity);
+      try (destruct fb; discriminate).
+Qed.
+
+Theorem run_impl_bracketed_refuted : forall n fb envW envS ss nfinal save G,
+  valid_cfg_impl envW envS G = true ->
+  live (snd (exec (Some (n + 1)) (run_impl n fb envW envS (exec_queries ss nfinal save)) (init G))) = [RDir] /\
+  live (snd (exec (Some (n + 4)) (run_impl n fb envW envS (exec_queries ss nfinal save)) (init G))) = leakset fb.
+Proof.
+  intros. split; rewrite run_impl_leaks by (try assumption; apply wb_exec_queries).
+  - replace (n + 1 <? n) with false by (symmetry; apply Nat.ltb_ge; lia). replace (n + 1 - n) with 1 by lia. reflexivity.
+  - replace (n + 4 <? n) with false by (symmetry; apply Nat.ltb_ge; lia). replace (n + 4 - n) with 4 by lia. reflexivity.
+Qed.
+
+Theorem config_error_leaks : forall fb envW envS body s,
+  live s = [] -> cnt s = 0 -> valid_cfg_impl envW envS (glb s) = false ->
+  fst (exec None (conn_impl fb (decimal_impl envW envS) body) s) = Fail /\
+  live (snd (exec None (conn_impl fb (decimal_impl envW envS) body) s)) = leakset fb.
+Proof. intros. apply conn_impl_config_error_leaks; auto. Qed.
+
+Theorem run_spec_never_leaks : forall n fb envW envS ss nfinal save k G,
+  live (snd (exec k (run_spec n fb envW envS (exec_queries ss nfinal save)) (init G))) = [].
+Proof. intros. apply bracketed_safe; [apply run_spec_bracketed | reflexivity]. Qed.
+
+Lemma api_call_spec_si : forall p, api_call_spec p -> si (map fst restored) p = true.
+Proof. intros p [n fb envW envS ss nfinal save|]; [apply run_spec_self_init | reflexivity]. Qed.
+
+Lemma api_call_spec_inv : forall p, api_call_spec p -> forall k s, inv restored s -> inv restored (snd (exec k p s)).
+Proof. intros p [n fb envW envS ss nfinal save|] k s I; [apply run_spec_restores; exact I | apply validate_restores; exact I]. Qed.
+
+Theorem history_independence_spec : forall runs p k G,
+  (forall q kq, In (q, kq) runs -> api_call_spec q) -> api_call_spec p -> G GDsOut = 0%Z ->
+  behaviour k p (run_seq runs (init G)) = behaviour k p (init G).
+Proof.
+  intros runs p k G Hr Hp HG. apply (history_independence restored).
+  - intros q kq Hq. apply api_call_spec_inv. exact (Hr q kq Hq).
+  - intros g v [E|[]]. inversion E; subst. exact HG.
+  - apply api_call_spec_si. exact Hp.
+Qed.
